@@ -799,14 +799,25 @@ class Model(Object):
                 forward = reaction.forward_variable
                 reverse = reaction.reverse_variable
 
-                if context:
-                    obj_coef = reaction.objective_coefficient
+                # Take the reaction out of the objective before its variables
+                # are removed; the solver interface would otherwise keep the
+                # removed variables in the objective expression.
+                obj_coef = reaction.objective_coefficient
+                if obj_coef != 0:
+                    self.solver.objective.set_linear_coefficients(
+                        {forward: 0, reverse: 0}
+                    )
 
+                if context:
                     if obj_coef != 0:
+                        # Look the objective up when the context exits, it may
+                        # have been replaced in the meantime.
                         context(
                             partial(
-                                self.solver.objective.set_linear_coefficients,
-                                {forward: obj_coef, reverse: -obj_coef},
+                                set_objective,
+                                self,
+                                {reaction: obj_coef},
+                                additive=True,
                             )
                         )
 
